@@ -4,6 +4,7 @@ package c11
 
 import (
 	"fmt"
+	"strings"
 	"sync/atomic"
 	"testing"
 
@@ -61,6 +62,9 @@ func TestC11Disk(t *testing.T) {
 			}
 			seen[fmt.Sprint(i)], seen[kinds] = true, true
 			nZone--
+			for _, x := range strings.Split(kinds, "+") {
+				m.Eval("content:zone-append-block-carries:"+x, fmt.Sprint(i))
+			}
 			i := i
 			ts = append(ts, trans{img: imgs[i], quickToo: true, double: len(ts) == 0, mk: func(pre world) *scen {
 				return &scen{m: m, base: base, pre: pre, oldHeads: []string{mined[i].Hash.Hex()}, next: nx, zoneOnly: true,
@@ -132,6 +136,6 @@ func TestC11Disk(t *testing.T) {
 			}
 		}
 	}
-	m.Need("leveldb:append-order2:crash-before:zone:batch-write", "pebble:append-order2:crash-before:zone:batch-write")
+	m.Need("content:zone-append-block-carries:qi", "leveldb:append-order2:crash-before:zone:batch-write", "pebble:append-order2:crash-before:zone:batch-write")
 	m.Floor(int64(m.N(60, 200)), m.N(24, 60))
 }
